@@ -171,7 +171,7 @@ def run(tier, replay=None):
                 break
     v.coverage.update({'evaluations': sum(n.values()), 'distinct_nontrivial': len(distinct), 'counts': n,
                        'rule': 'Wire.tla universe: all headers (version nibbles x exchange types x 8 flag combinations x Message IDs) with an empty chain; '
-                               'every single payload instance (SA with 1-2 proposals, SPI sizes 0/4/8, transforms with/without key length; KE; IDi/IDr of each type; '
+                               'every single payload instance (SA with 1-3 proposals incl. the same suite offered twice and a transform listed twice, SPI sizes 0/4/8, transforms with/without key length; KE; IDi/IDr of each type; '
                                'AUTH; NONCE; NOTIFY with/without SPI/data; DELETE with 0/1/3 SPIs; VENDOR; TSi/TSr IPv4/IPv6; unknown critical / non-critical) '
                                'and pairs of them; distinct = distinct abstract (header, payload list); each compared in 5 ways',
                        'exhaustive': tier == 'thorough', 'samples': samples})
